@@ -357,13 +357,15 @@ def h_emitter_in_group(ctx, depth, options):
     member = ctx.choice("member", list(range(shape[gpos])))
     direction = ctx.choice("direction", ["emit", "broadcast"])
     others = [n for i, grp in enumerate(names) for n in grp if i != gpos]
-    consumer = ctx.choice("consumer", ["nobody"] + others)
+    # a member of the emitter's own group (the emitter itself or a sibling) may claim the event too: it is not above / below the emitter,
+    # so the layers beyond the group still have to see it
+    consumer = ctx.choice("consumer", ["nobody"] + others + list(names[gpos]))
     _set_consumers(set() if consumer == "nobody" else {consumer})
     del log[:]
     sub = st.getLayer(gpos).sublayers[member]
     ev = L.YowLayerEvent("ev.test")
     (sub.emitEvent if direction == "emit" else sub.broadcastEvent)(ev)
-    expected = ref_event(names, gpos, direction, set() if consumer == "nobody" else {consumer})
+    expected = ref_event(names, gpos, direction, set() if consumer == "nobody" or consumer in names[gpos] else {consumer})
     seen = [e[1] for e in log if e[0] == "event"]
     beyond = [n for n in seen if n not in names[gpos]]
     sib = [n for n in seen if n in names[gpos]]
@@ -439,7 +441,7 @@ def h_builder(ctx, n_ops):
     model = []
     k = 0
     for i in range(n_ops):
-        op = ctx.choice("op%d" % i, ["push", "pop", "push-group"])
+        op = ctx.choice("op%d" % i, ["push", "pop", "push-group", "push-implicit-group"])
         if op == "push":
             c = _rec_class("B%d" % k)
             k += 1
@@ -449,6 +451,11 @@ def h_builder(ctx, n_ops):
             cs = (_rec_class("B%da" % k), _rec_class("B%db" % k))
             k += 1
             r = b.push(L.YowParallelLayer(cs))
+            model.append([c.NAME for c in cs])
+        elif op == "push-implicit-group":
+            cs = (_rec_class("B%da" % k), _rec_class("B%db" % k))
+            k += 1
+            r = b.push(cs)                  # a plain tuple of classes: the stack wraps it into a parallel group
             model.append([c.NAME for c in cs])
         else:
             r = b.pop()
@@ -463,9 +470,23 @@ def h_builder(ctx, n_ops):
     st = b.build()
     got = []
     for i in range(len(model)):
-        inst = st.getLayer(i)
+        try:
+            inst = st.getLayer(i)
+        except IndexError:
+            break
         got.append([s.NAME for s in inst.sublayers] if isinstance(inst, L.YowParallelLayer) else [inst.NAME])
-    return [("built stack has the pushed layers in push order (bottom first)", got == model)]
+    deeper = True
+    try:
+        st.getLayer(len(model))
+    except IndexError:
+        deeper = False
+    log = []
+    for c in _CLS_CACHE.values():
+        c.LOG, c.CONSUME = log, set()
+    st.send(())
+    arrivals = [e[2] + (e[1],) for e in log if e[0] == "send" and e[1] in model[0]]
+    return [("built stack has the pushed layers in push order (bottom first), and no more", got == model and not deeper),
+            ("data sent from the top of the built stack is offered to every member of every group and continues downward", arrivals == ref_down(model))]
 
 
 def _builds(b):
